@@ -8,11 +8,11 @@ JC = "parsec/interfaces/ptg/ptg-compiler/jdf.c"
 OUTSIDE = ["'accepted => emitted C compiles' for arbitrary programs (a string-building code generator plus a C compiler cannot be "
            "executed symbolically); only the limit clause is decided, plus concrete replays through the real ptgpp + gcc",
            "determinism of the output", "the MAX_LOCAL_COUNT check of jdf2c.c (jdf_generate_task_typedef; exits the process)",
-           "more than 24 flows / 12 dependencies per flow in the symbolic AST"]
+           "more than 23 flows; dependencies (0..12, symbolic direction) on the first two flows only, the other flows carry none"]
 ASSUMPTIONS = ["the AST shapes are those the grammar can produce: flow type in {CTL, READ, WRITE, RW}; every dependency is either input or output",
                "limits as configured in this build: MAX_PARAM_COUNT=20, MAX_DEP_IN_COUNT=MAX_DEP_OUT_COUNT=10"]
-BOUNDS = {"quick": {"flows": "0..24 symbolic", "deps per flow": "0..12 symbolic", "flow/dep kinds": "symbolic"},
-          "thorough": {"flows": "0..24", "deps per flow": "0..12"}}
+BOUNDS = {"quick": {"flows": "0..23 symbolic", "deps per flow": "0..12 symbolic on 2 flows", "flow/dep kinds": "symbolic"},
+          "thorough": {"flows": "0..23", "deps per flow": "0..12 on 2 flows"}}
 KF = "C24-total-flows"
 
 
@@ -32,14 +32,14 @@ def jdf_text(nr, nw, nc, nx):
 
 def real_gen(nr, nw, nc, nx):
     def g(ctx, q, qdir, overlays):
-        jp = os.path.join(qdir, "limits.jdf")
+        jp = os.path.join(qdir, "c24prog.jdf")
         with open(jp, "w") as f:
             f.write(jdf_text(nr, nw, nc, nx))
-        r = ptg.run(ctx, jp, qdir, name="limits", overlays=overlays, check=False)
+        r = ptg.run(ctx, jp, qdir, name="c24prog", overlays=overlays, check=False, opts=["--Werror"])
         cc_rc = -1
         cc_err = ""
         if r["rc"] == 0:
-            cmd = ["gcc", "-fsyntax-only", "-w", "-D_GNU_SOURCE", "-std=gnu11", "-I."] + ctx.inc_flags(overlays) + ["limits.c"]
+            cmd = ["gcc", "-fsyntax-only", "-w", "-D_GNU_SOURCE", "-std=gnu11", "-I."] + ctx.inc_flags(overlays) + ["c24prog.c"]
             p = subprocess.run(cmd, cwd=qdir, stdout=subprocess.PIPE, stderr=subprocess.PIPE, text=True)
             cc_rc = p.returncode
             cc_err = "\n".join(l for l in p.stderr.splitlines() if "error" in l)[:400]
@@ -52,12 +52,12 @@ def real_gen(nr, nw, nc, nx):
 
 
 def queries(ctx):
-    qs = [Q("limits_symbolic_ast", ["h.c"], defs=["NF=24", "ND=12"], unwind=26, units=[JC, "parsec/interfaces/ptg/ptg-compiler/jdf.h"],
+    qs = [Q("limits_symbolic_ast", ["h.c"], defs=["NF=23", "NDF=2", "ND=12"], unwind=25, units=[JC, "parsec/interfaces/ptg/ptg-compiler/jdf.h"],
             object_bits=10, timeout=1800, kf=KF,
             incs=[os.path.join(ctx.repo, "parsec/interfaces/ptg/ptg-compiler")],
-            info={"symbolic": ["number of flows 0..24", "type of every flow", "number 0..12 and direction of the dependencies of every flow"],
-                  "stubs": ["none (jdf_warn prints)"], "functions": ["jdf_sanity_check_flows_and_deps_number"],
-                  "bounds": {"flows": 24, "deps/flow": 12}})]
+            info={"symbolic": ["number of flows 0..23", "type of every flow", "number 0..12 and direction of the dependencies of the first two flows"],
+                  "stubs": ["vsnprintf/fprintf inside jdf_warn/jdf_fatal are empty for the solver (diagnostic text is not part of the verdict)"], "functions": ["jdf_sanity_check_flows_and_deps_number"],
+                  "bounds": {"flows": 23, "deps/flow": 12, "flows with deps": 2}})]
     # concrete replays through the real tool chain: (READ, WRITE, CTL, RW)
     for nr, nw, nc, nx in ((11, 10, 0, 0), (10, 10, 0, 0), (21, 0, 0, 0), (0, 0, 1, 20), (8, 8, 5, 0)):
         total = nr + nw + nc + nx
@@ -65,7 +65,8 @@ def queries(ctx):
         qs.append(Q("real_ptgpp_%dR_%dW_%dC_%dRW" % (nr, nw, nc, nx), ["real.c"], gen=real_gen(nr, nw, nc, nx), cflags=ptg.CFLAGS,
                     engine="G", unwind=2, units=ptg.UNITS, kf=(KF if bad else None), timeout=600,
                     info={"enumerated": {"READ": nr, "WRITE": nw, "CTL": nc, "RW": nx}, "symbolic": [],
-                          "functions": ["parsec-ptgpp (whole program, rebuilt from the current sources)", "gcc -fsyntax-only on the emitted C"]}))
+                          "functions": ["parsec-ptgpp --Werror (whole program, rebuilt from the current sources; --Werror is the documented way to "
+                                        "turn its diagnostics into a non-zero exit status)", "gcc -fsyntax-only on the emitted C"]}))
     return qs
 
 
@@ -78,4 +79,16 @@ def mutants(ctx):
     ]
 
 
-CLAIMED = False
+CLAIMED = True
+MANIFEST = {
+ "engine": "cbmc-src",
+ "text": "The one decidable clause of the property: the real jdf_sanity_check_flows_and_deps_number of jdf.c is executed symbolically "
+         "by CBMC on an abstract syntax tree built directly with a symbolic number (0..23) of flows of symbolic type and symbolic "
+         "dependency lists; a SAT query shows that it reports an error exactly when the READ, WRITE or total flow counts or the "
+         "per-flow input/output dependency counts exceed the configured limits. The solver's answer is tied to the real tool by "
+         "queries that run the parsec-ptgpp rebuilt from the current sources (--Werror) and gcc on concrete programs at and over the "
+         "limits. Known finding C24-total-flows (total flow count unchecked) is reported and excluded.",
+ "note": "'accepted implies the emitted C compiles' for arbitrary programs and output determinism are outside (not encodable); "
+         "AST shapes are those the grammar produces; <= 23 flows, dependency lists on two flows; limits of this build (20/10/10).",
+ "technique": "CBMC bounded symbolic execution of the real jdf.c unit on a symbolic AST + SAT (cadical); concrete replays through the rebuilt ptgpp + gcc",
+}
